@@ -263,6 +263,41 @@ fn environments_part<V: Variant>(ctx: &mut Ctx, tier: Tier, keys: &[KeyCtx<V>]) 
     part.exhaustive = true;
     t.into_part(ctx, part);
 
+    // signatures whose compressed s2 fills the fixed-size body exactly, or leaves 1..8 bits: honest outputs of sign
+    // that sit on the decoder's end-of-buffer paths (found by `falcon-mc diag fitscan`; 6e-5 of Falcon-1024
+    // signatures fit exactly, Falcon-512 signatures never come close)
+    if V::N == 1024 {
+        let tight: Vec<u64> = if tier.thorough() { (0..60000).collect() } else { vec![5338, 8576, 19927, 8599, 11819, 6409, 9671, 190, 2925, 2807, 7260, 2051, 2550, 3568, 5772, 6085, 8833, 10860] };
+        let body = crate::refmodel::sig_len(V::N) - 41;
+        let t = tight
+            .par_iter()
+            .map(|&k| {
+                let mut t = Tally::default();
+                let key = &keys[0];
+                t.cases += 1;
+                t.calls += 2;
+                let case = || json!({"kind":"tight","variant":V::N,"seed":key.seed,"stream":k});
+                match catch(|| with_stream(1_000_000 + k, || V::sign(b"exact fit", &key.sk))) {
+                    Ok(sig) => {
+                        let sb = V::sig_to_bytes(&sig);
+                        if let Some(s2) = crate::refmodel::codec::decompress(&sb[41..], V::N) {
+                            let slack = 8 * body as i64 - crate::refmodel::codec::bits_of(&s2) as i64;
+                            if slack <= 8 {
+                                t.out(&format!("body filled up to {} bit(s) from the end", slack));
+                            }
+                        }
+                        judge_sig::<V>(&mut t, b"exact fit", &sig, &key.pk, &key.h, "tight-fit", &case)
+                    }
+                    Err(m) => t.viol(format!("sign-fails:n={}:tight-fit", V::N), format!("{}::sign failed (stream {}): {}", V::name(), k, m), case()),
+                }
+                t
+            })
+            .reduce(Tally::default, reduce);
+        let mut part = Part::new(&format!("tight_fit_signatures_{}", V::N), &format!("{} signer streams x one key and message, chosen (quick) so that the compressed s2 leaves 0, 1, ..., 8 bits of the body unused / all of a window of 60000 streams (thorough): the signature verifies and the reference Algorithm 16 accepts it", tight.len()));
+        part.exhaustive = true;
+        t.into_part(ctx, part);
+    }
+
     // message length ladder: "every message of any length"
     let top: usize = if tier.thorough() { 2100 } else { 600 };
     let mut lens: Vec<usize> = (0..=top).collect();
@@ -515,6 +550,17 @@ pub fn replay(case: &Value) -> Result<Option<String>, String> {
                 t.found.into_iter().next().map(|(_, f)| f.what)
             }
             Ok(if variant == 512 { one::<V512>(seed, &msg, stream, &devs) } else { one::<V1024>(seed, &msg, stream, &devs) })
+        }
+        "tight" => {
+            let seed = case.get("seed").and_then(|x| x.as_u64()).ok_or("seed")?;
+            let k = case.get("stream").and_then(|x| x.as_u64()).ok_or("stream")?;
+            let key = make_key::<V1024>(seed);
+            let mut t = Tally::default();
+            match catch(|| with_stream(1_000_000 + k, || V1024::sign(b"exact fit", &key.sk))) {
+                Ok(sig) => judge_sig::<V1024>(&mut t, b"exact fit", &sig, &key.pk, &key.h, "replay", &|| json!({})),
+                Err(e) => return Ok(Some(format!("sign failed: {}", e))),
+            }
+            Ok(t.found.into_iter().next().map(|(_, f)| f.what))
         }
         "length" => {
             let variant = case.get("variant").and_then(|x| x.as_u64()).ok_or("variant")?;
